@@ -18,7 +18,7 @@ ASSUMES = ['numeric aggregates are modelled over integers; sum/min/max also over
            'set aggregates are compared as sets; any may return any matching non-null value']
 
 AGGS = ['sum', 'avg', 'median', 'max', 'min', 'first', 'last', 'count', 'any', 'set', 'array', 'counters']
-KEYS = [1, 2, 3, 'a', 'b', None]
+KEYS = [1, 2, 3, 'a', 'b', None, True, 0, False]      # True/1 and False/0 are equal in Python but render different keys
 
 
 def gen_cases(rng, tier):
@@ -45,7 +45,7 @@ def gen_cases(rng, tier):
         listform = shape <= 2 and rng.chance(0.7)
         fields = []
         used = set()
-        for _ in range(rng.randint(1, 4)):
+        for _ in range(rng.pick([0, 1, 1, 2, 3, 4])):      # 0: join used as an existence filter (empty mapping)
             t = rng.pick(['agg1', 'agg2', 'v', 'w', 'x', 'out'])
             if t in used:
                 continue
